@@ -197,7 +197,20 @@ pub fn sl_opts(r: &mut Rng, t: usize) -> SlOpts {
 fn oracle_c12(ctx: &RunCtx, s: &StepRec, p: &Post) -> Vec<String> {
     let ss = s.pre_fb.is_none();
     let consistent = !ctx.tags.iter().any(|t| t == "init:inconsistent") || s.k > 0;
-    oracle_step(&s.pre, &p.st, &ctx.envs[s.ver].path, ss, consistent)
+    let mut f = oracle_step(&s.pre, &p.st, &ctx.envs[s.ver].path, ss, consistent);
+    // the same statement against the NETWORK's own link lengths (not the path's link points): the reported front
+    // segment starts at the cumulative length of the route's links before it
+    let st = &p.st;
+    if let Some(pos) = ctx.route.path.iter().position(|l| l.idx() as u32 == st.link_idx_front) {
+        let base: f64 = ctx.route.path[..pos].iter().map(|l| ctx.route.network[l.idx()].length.value).sum();
+        let len = ctx.route.network[ctx.route.path[pos].idx()].length.value;
+        let x = st.offset.value;
+        if (base + st.offset_in_link.value - x).abs() > 1e-9 * x.abs().max(1.0) + 1e-9 * base {
+            f.push(format!("locate (network): the route's links before link {} are {} m long, + offset_in_link {} != front position {}", st.link_idx_front, base, st.offset_in_link.value, x));
+        }
+        if !(st.offset_in_link.value <= len * (1.0 + 1e-12) + 1e-9) { f.push(format!("locate (network): offset_in_link {} beyond the length {} of link {}", st.offset_in_link.value, len, st.link_idx_front)); }
+    }
+    f
 }
 
 /// TrainState::new -- the state every simulation starts from (row 0 of its history), against ts_new (TrainStep.v);
